@@ -2105,6 +2105,9 @@ isal_read_zlib_header(struct inflate_state *state, struct isal_zlib_header *zlib
 
                 if (zlib_hdr->dict_flag) {
                 case ISAL_ZLIB_DICT:
+                        /* Also reached when resuming with a header struct that did not
+                         * see the first two bytes */
+                        zlib_hdr->dict_flag = 1;
                         ret = fixed_size_read(state, &next_in, ZLIB_DICT_LEN);
                         if (ret) {
                                 state->block_state = ISAL_ZLIB_DICT;
@@ -2238,11 +2241,25 @@ isal_inflate(struct inflate_state *state)
                 struct isal_gzip_header gz_hdr;
 
                 isal_gzip_header_init(&gz_hdr);
+                /* The header may arrive split over several calls. The header reader
+                 * keeps its position in gz_hdr (flags, extra_len, running header crc),
+                 * which only lives for this call, so carry those values in fields that
+                 * are unused until the first deflate block is decoded. */
+                gz_hdr.flags = state->write_overflow_lits;
+                gz_hdr.extra_len = state->write_overflow_len;
+                gz_hdr.hcrc = state->copy_overflow_length;
                 ret = isal_read_gzip_header(state, &gz_hdr);
+                if (ret > 0) {
+                        state->write_overflow_lits = gz_hdr.flags;
+                        state->write_overflow_len = gz_hdr.extra_len;
+                        state->copy_overflow_length = gz_hdr.hcrc;
+                        return ISAL_DECOMP_OK;
+                }
+                state->write_overflow_lits = 0;
+                state->write_overflow_len = 0;
+                state->copy_overflow_length = 0;
                 if (ret < 0)
                         return ret;
-                else if (ret > 0)
-                        return ISAL_DECOMP_OK;
         } else if (!state->wrapper_flag && state->crc_flag == IGZIP_ZLIB) {
                 struct isal_zlib_header z_hdr;
 
